@@ -636,13 +636,20 @@ func msRunBoth(t *testing.T, e *msEtcd, brokers int, ops []msOp) msRun {
 
 func msCoqKeys(kvs []map[string]string) string {
 	it := make([]string, len(kvs))
+	prev := ""
 	for i, m := range kvs {
 		ks := make([]string, 0, len(m))
 		for k := range m {
 			ks = append(ks, k)
 		}
 		sort.Strings(ks)
-		it[i] = cqStrs(ks)
+		cur := cqStrs(ks)
+		if i > 0 && cur == prev {
+			it[i] = "None" // same key set as after the previous operation
+		} else {
+			it[i] = "(Some " + cur + ")"
+		}
+		prev = cur
 	}
 	return cqList(it)
 }
@@ -736,7 +743,7 @@ func msGenScenario(r *vRand) msScenario {
 	for i := 0; i < r.Range(1, 2); i++ {
 		sc.Groups = append(sc.Groups, gs[r.Intn(len(gs))])
 	}
-	sc.MaxPart = int32(r.Range(1, 3))
+	sc.MaxPart = int32(r.Range(1, 2))
 	nx, ny := int64(r.Range(1, 3)), int64(r.Range(1, 3))
 	mk := func(t string, n int64) []msOp {
 		ops := []msOp{{K: "ct", Topic: t, N: n, RF: 1}}
@@ -767,7 +774,7 @@ func msGenScenario(r *vRand) msScenario {
 	if r.Chance(40) {
 		sc.Setup = append(sc.Setup, msOp{K: "pg", G: msGenGroup(r, msNames{topics: []string{sc.X, sc.Y}}, sc.Groups[0])})
 	}
-	nm := r.Range(1, 4)
+	nm := r.Range(1, 3)
 	for i := 0; i < nm; i++ {
 		k := r.Intn(8)
 		if i == 0 && r.Chance(60) {
